@@ -550,3 +550,114 @@ def try_payload_defs(fn, e, depth=0):
 def callee_of_path(term):
     f = term.get("func", {})
     return (f.get("res") or {}).get("rpath") or f.get("fn") or ""
+
+
+# ---- a value that arrives as a field of a parameter (arguments bundled into a struct by the caller) ---------------------------------
+def agg_sources(fn, l, depth=8, _seen=None):
+    """The struct-literal statements whose value can end up in local l of fn: through copies / moves / references, through `Ok(v)`
+    and `?` (`Try::branch(..) as Continue`).  None when some definition is anything else (a call result, a projection ...)."""
+    _seen = _seen if _seen is not None else set()
+    if depth < 0:
+        return None
+    if l in _seen:
+        return []
+    _seen.add(l)
+    d = defs_of(fn)
+    out = []
+    for dd in d.all(l):
+        if dd[0] != "stmt":
+            if dd[0] == "call" and (callee_of(dd[2]).get("path") or "").endswith("FromResidual::from_residual"):
+                continue        # the error of a `?`: never the Ok value
+            return None
+        rv = dd[3]["rv"]
+        if rv["k"] == "agg" and rv.get("ak") == "adt" and rv.get("variant") == "Ok" and len(rv["ops"]) == 1 and rv["ops"][0].get("k") in ("copy", "move") \
+                and "p" not in rv["ops"][0]["pl"]:
+            sub = agg_sources(fn, rv["ops"][0]["pl"]["l"], depth - 1, _seen)
+            if sub is None:
+                return None
+            out += [("ok", s) for tag, s in sub]
+        elif rv["k"] == "agg" and rv.get("ak") == "adt" and rv.get("variant") == "Err":
+            continue
+        elif rv["k"] == "agg" and rv.get("ak") == "adt" and rv.get("fields"):
+            out.append(("plain", dd[3]))
+        elif rv["k"] in ("use", "ref") and (rv.get("op", {}).get("k") in ("copy", "move") or rv["k"] == "ref"):
+            pl = rv["op"]["pl"] if rv["k"] == "use" else rv["pl"]
+            ps = [p_ for p_ in pl.get("p", []) if p_ != "deref"]
+            if not ps:
+                sub = agg_sources(fn, pl["l"], depth - 1, _seen)
+                if sub is None:
+                    return None
+                out += sub
+            elif len(ps) == 2 and isinstance(ps[0], dict) and ps[0].get("downcast") == "Continue" and isinstance(ps[1], dict) and ps[1].get("f") == 0:
+                # the payload of `x?`: x's Ok values
+                one = d.single(pl["l"])
+                if not one or one[0] != "call" or not (callee_of(one[2]).get("path") or "").endswith("Try>::branch") and \
+                        not (callee_of(one[2]).get("path") or "").endswith("Try::branch"):
+                    return None
+                a0 = one[2]["args"][0]
+                if a0.get("k") not in ("copy", "move") or "p" in a0["pl"]:
+                    return None
+                sub = agg_sources(fn, a0["pl"]["l"], depth - 1, _seen)
+                if sub is None:
+                    return None
+                out += [("plain", s) for tag, s in sub if tag == "ok"]
+            else:
+                return None
+        else:
+            return None
+    return out
+
+
+def param_field_sources(prog, fn, e, depth=3):
+    """e is `<param i>.f1.f2..` of fn (through derefs): the expressions callers supply for that field, as [(caller, expr)].
+    None when e is not of that form or some caller builds the argument in a way that is not followed."""
+    path = []
+    x = e
+    while isinstance(x, tuple) and x and x[0] in ("field", "deref"):
+        if x[0] == "field":
+            if not isinstance(x[2], str):
+                return None
+            path.append(x[2])
+        x = x[1]
+    if not (isinstance(x, tuple) and x and x[0] == "param") or not path or depth < 0:
+        return None
+    path.reverse()
+    i = x[1]
+    out = []
+    ncalls = 0
+    for g in prog.fns.values():
+        for bb, t in g.calls():
+            if g.blocks[bb]["cleanup"] or (callee_of(t).get("rpath") or "") != fn.id or len(t["args"]) < i:
+                continue
+            ncalls += 1
+            a = t["args"][i - 1]
+            if a.get("k") not in ("copy", "move") or [p_ for p_ in a["pl"].get("p", []) if p_ != "deref"]:
+                return None
+            srcs = agg_sources(g, a["pl"]["l"])
+            if not srcs:
+                return None
+            for tag, s in srcs:
+                if tag != "plain":
+                    return None
+                cur = s
+                expr = None
+                for k, name in enumerate(path):
+                    fields = cur["rv"].get("fields") or []
+                    if name not in fields:
+                        return None
+                    op = cur["rv"]["ops"][fields.index(name)]
+                    if k == len(path) - 1:
+                        expr = operand_expr(g, op)
+                    else:
+                        if op.get("k") not in ("copy", "move") or "p" in op["pl"]:
+                            return None
+                        nxt = agg_sources(g, op["pl"]["l"])
+                        if not nxt or len(nxt) != 1 or nxt[0][0] != "plain":
+                            return None
+                        cur = nxt[0][1]
+                deeper = param_field_sources(prog, g, expr, depth - 1)
+                if deeper:
+                    out += deeper
+                else:
+                    out.append((g, expr))
+    return out if ncalls else None
